@@ -21,37 +21,42 @@ fn frag_tag(f: &FragmentRef) -> String {
     }
 }
 
+/// Where spans point: the text between two source offsets (None when they are not boundaries of
+/// the source), and the options the document was parsed with (its fragments are re-read with them).
+pub struct Src<'a> {
+    pub text: &'a dyn Fn(usize, usize) -> Option<String>,
+    pub o: u32,
+}
+
+fn span_text(src: &Src, cm: &CodeMap, off: usize) -> Option<String> {
+    cm.get(off).and_then(|e| if e.span.start() <= e.span.end() { (src.text)(e.span.start(), e.span.end()) } else { None })
+}
+
 /// Is the source text of code-map entry `off` exactly the given value / key / entry?
-fn span_is_value(src: &str, cm: &CodeMap, off: usize, v: &Value) -> bool {
-    match cm.get(off) {
-        Some(e) => match src.get(e.span.start()..e.span.end()) {
-            Some(text) => match Value::parse_str(text) {
-                Ok((w, _)) => &w == v && !text.starts_with([' ', '\t', '\n', '\r']) && !text.ends_with([' ', '\t', '\n', '\r']),
-                Err(_) => false,
-            },
-            None => false,
+fn span_is_value(src: &Src, cm: &CodeMap, off: usize, v: &Value) -> bool {
+    match span_text(src, cm, off) {
+        Some(text) => match Value::parse_str_with(&text, crate::parse::opts(src.o)) {
+            Ok((w, _)) => &w == v && !text.starts_with([' ', '\t', '\n', '\r']) && !text.ends_with([' ', '\t', '\n', '\r']),
+            Err(_) => false,
         },
         None => false,
     }
 }
-fn span_is_key(src: &str, cm: &CodeMap, off: usize, k: &str) -> bool {
+fn span_is_key(src: &Src, cm: &CodeMap, off: usize, k: &str) -> bool {
     span_is_value(src, cm, off, &Value::String(k.into()))
 }
-fn span_is_entry(src: &str, cm: &CodeMap, off: usize, k: &str, v: &Value) -> bool {
-    match cm.get(off) {
-        Some(e) => match src.get(e.span.start()..e.span.end()) {
-            Some(text) => match Value::parse_str(&format!("{{{text}}}")) {
-                Ok((Value::Object(o), _)) => o.len() == 1 && o.entries()[0].key.as_str() == k && &o.entries()[0].value == v && text.starts_with('"'),
-                _ => false,
-            },
-            None => false,
+fn span_is_entry(src: &Src, cm: &CodeMap, off: usize, k: &str, v: &Value) -> bool {
+    match span_text(src, cm, off) {
+        Some(text) => match Value::parse_str_with(&format!("{{{text}}}"), crate::parse::opts(src.o)) {
+            Ok((Value::Object(o), _)) => o.len() == 1 && o.entries()[0].key.as_str() == k && &o.entries()[0].value == v && text.starts_with('"'),
+            _ => false,
         },
         None => false,
     }
 }
 
 
-fn walk(src: &str, v: &Value, cm: &CodeMap, off: usize, out: &mut String, spans_ok: &mut bool) {
+fn walk(src: &Src, v: &Value, cm: &CodeMap, off: usize, out: &mut String, spans_ok: &mut bool) {
     match v {
         Value::Array(a) => {
             out.push_str(&format!(" A{off}["));
@@ -157,8 +162,40 @@ fn walk(src: &str, v: &Value, cm: &CodeMap, off: usize, out: &mut String, spans_
     }
 }
 
-pub fn eval_doc(src: &str) -> String {
-    match Value::parse_str(src) {
+/// The same document read from a source whose characters declare their UTF-16 length in bytes
+/// (`Parse::parse_infallible_with` over `DecodedChar`s): the walk yields the same offsets, and every
+/// span, now in UTF-16 byte offsets, is the source text of its element.
+fn declared_length_walk(src: &str, o: u32, nav: &str, cm_len: usize) -> bool {
+    let chars: Vec<char> = src.chars().collect();
+    let mut at = std::collections::HashMap::new();
+    let mut a = 0usize;
+    at.insert(0usize, 0usize);
+    let mut dcs = vec![];
+    for (i, c) in chars.iter().enumerate() {
+        let l = 2 * c.len_utf16();
+        dcs.push(decoded_char::DecodedChar::new(*c, l));
+        a += l;
+        at.insert(a, i + 1);
+    }
+    match Value::parse_infallible_with(dcs.into_iter(), crate::parse::opts(o)) {
+        Err(_) => false,
+        Ok((v, cm)) => {
+            let text = |s: usize, e: usize| match (at.get(&s), at.get(&e)) {
+                (Some(&i), Some(&j)) if i <= j => Some(chars[i..j].iter().collect::<String>()),
+                _ => None,
+            };
+            let mut nav2 = String::new();
+            let mut ok = true;
+            walk(&Src { text: &text, o }, &v, &cm, 0, &mut nav2, &mut ok);
+            let same = nav2 == nav && cm.len() == cm_len;
+            drop_deep(v);
+            ok && same
+        }
+    }
+}
+
+pub fn eval_doc(src: &str, o: u32) -> String {
+    match Value::parse_str_with(src, crate::parse::opts(o)) {
         Err(_) => "ERR".into(),
         Ok((v, cm)) => {
             let count = v.traverse().count();
@@ -172,13 +209,15 @@ pub fn eval_doc(src: &str) -> String {
             let trav: Vec<String> = v.traverse().map(|(i, f)| format!("{}{}", i, frag_tag(&f))).collect();
             let mut nav = String::new();
             let mut spans_ok = true;
-            walk(src, &v, &cm, 0, &mut nav, &mut spans_ok);
+            let text = |s: usize, e: usize| src.get(s..e).map(|t| t.to_string());
+            walk(&Src { text: &text, o }, &v, &cm, 0, &mut nav, &mut spans_ok);
             // sub_fragments() of every fragment: forward, backward and adaptor-driven consumption agree
             for (_, f) in v.traverse() {
                 spans_ok &= styles_agree(&|| f.sub_fragments(), &|g| frag_tag(&g)) && styles_agree_back(&|| f.sub_fragments(), &|g| frag_tag(&g));
             }
+            let dl = src.len() > 3000 || declared_length_walk(src, o, &nav, cm.len());
             let s = format!(
-                "V={} C={} CA={}/{}/{}/{}/{}/{} T={} F={} S={} N={}",
+                "V={} C={} CA={}/{}/{}/{}/{}/{} T={} F={} S={} DL={} N={}",
                 v.volume(),
                 count,
                 v.count(|_, f| f.is_array() || f.is_object()),
@@ -190,6 +229,7 @@ pub fn eval_doc(src: &str) -> String {
                 trav.join(","),
                 frags.join(","),
                 spans_ok as u8,
+                dl as u8,
                 if nav.is_empty() { " -" } else { &nav }
             );
             drop_deep(v);
@@ -275,7 +315,7 @@ pub fn eval(line: &str) -> String {
     guarded(move || {
         let t = toks(&line);
         match t.as_slice() {
-            ["s", _, h] => eval_doc(&parse_hex_string(h)),
+            ["s", o, h] => eval_doc(&parse_hex_string(h), o.parse().unwrap_or(0)),
             ["t", ty, h] => eval_conv(ty, &parse_hex_string(h)),
             _ => format!("BADCASE {line}"),
         }
@@ -391,6 +431,35 @@ pub fn generate(args: &Args, out: &mut Out) {
         crate::parse::gen_doc(&mut r, d, &mut s, false);
         crate::parse::gen_ws(&mut r, &mut s);
         out.case_str(&format!("s 0 {}", hex_str(&s)));
+    }
+    // 3b. documents accepted only under a lenient option record: strings and keys built from
+    // surrogate escapes in every arrangement (in particular an unpaired one right before the
+    // closing quote), followed by siblings whose offsets depend on the string's fragment
+    let elems = ["\\ud83d", "\\ude00", "x", "\\n", "\u{e9}"];
+    for n in 1..=3usize {
+        for code in 0..elems.len().pow(n as u32) {
+            let mut c = code;
+            let mut body = String::new();
+            for _ in 0..n {
+                body.push_str(elems[c % elems.len()]);
+                c /= elems.len();
+            }
+            for o in 1..=3u32 {
+                out.case(|| format!("s {o} {}", hex_str(&format!("[\"{body}\", [], {{\"{body}\" : \"{body}\", \"k\":[1]}}, 2]"))));
+                if n <= 2 {
+                    out.case(|| format!("s {o} {}", hex_str(&format!("{{\"{body}\":{{\"{body}\":0}},\"{body}\":[\"{body}\",null]}}"))));
+                }
+            }
+        }
+    }
+    for k in 0..n / 4 {
+        let mut r = rng.fork();
+        let mut s = String::new();
+        crate::parse::gen_ws(&mut r, &mut s);
+        let d = r.range(1, 5);
+        crate::parse::gen_doc(&mut r, d, &mut s, true);
+        crate::parse::gen_ws(&mut r, &mut s);
+        out.case_str(&format!("s {} {}", 1 + k % 3, hex_str(&s)));
     }
     // 4. conversions with a wrong-kind value planted at every leaf position
     let nconv = if full { 6000 } else { 500 };
